@@ -132,6 +132,17 @@ def check_cm_object(ctx, case, cm, m, classes):
             ctx.fail("one-vs-all-equals-definition", dict(case, cls=j), observed=ova[j], expected=[[float(x) for x in r] for r in want])
         if F(float(ova[j].sum())) != tot:
             ctx.fail("one-vs-all-conserves-population", dict(case, cls=j), observed=float(ova[j].sum()), expected=float(tot))
+    # a caller holds the one-vs-all object and queries it repeatedly: rates first, then everything else
+    ok_h, held = guarded(ctx, "one_vs_all", case, cm.one_vs_all)
+    if ok_h:
+        before = np.array(held.matrix, copy=True)
+        for nm_ in ("tpr", "fnr", "ppv", "npv", "tnr", "fpr", "topr", "accuracy", "tpr_ci"):
+            guarded(ctx, "held-" + nm_, case, lambda: getattr(held, nm_)())
+        ctx.tick()
+        if not np.array_equal(np.asarray(held.matrix), before):
+            ctx.fail("queries-leave-the-one-vs-all-matrix-unchanged", case, observed=held.matrix, expected=before)
+        if not np.array_equal(np.asarray(cm.matrix, dtype=float), np.array([[float(x) for x in r] for r in m])):
+            ctx.fail("queries-leave-the-matrix-unchanged", case, observed=cm.matrix, expected=[[float(x) for x in r] for r in m])
     ok, acc = guarded(ctx, "accuracy", case, cm.accuracy)
     ctx.tick()
     if ok:
@@ -274,6 +285,11 @@ def run(item, ctx, tier, seed):
                           columns=[names[c] for c in colp])
         dict_shuffled = {names[a]: {names[c]: m[a][c] for c in colp} for a in rowp}
         base = None
+        if i % 3 == 1:
+            ok_f, cmf = guarded(ctx, "construct-float", case, lambda: ConfusionMatrix(matrix=np.array(m, dtype=float) * 0.5, classes=names))
+            ctx.tick()
+            if ok_f:
+                check_cm_object(ctx, dict(case, dtype="float64 x0.5"), cmf, [[x / 2 for x in r] for r in mF], names)
         for form, kwargs in (("nested-list", dict(matrix=m, classes=names)),
                              ("ndarray", dict(matrix=np.array(m), classes=names)),
                              ("dict", dict(matrix=as_dict)),
